@@ -375,6 +375,15 @@ pub fn gen_ownership(rng: &mut Rng, tier: &Tier) -> Vec<Case> {
                         c.push(format!("drop {}", id));
                         ids.retain(|x| *x != id);
                     }
+                    5 => c.push(format!("sm {}", id)), // the state looked at through `state_mut`: nothing is cloned or dropped
+                    6 if ids.len() > 1 => {
+                        // `a.clone_from(&b)` between two live instances at whatever fill levels they have: what `a` held
+                        // is dropped, what `b` holds is cloned
+                        let other = *rng.pick(&ids);
+                        if other != id {
+                            c.push(format!("clonefrom {} {}", id, other));
+                        }
+                    }
                     _ => c.push(format!("f {} {}", id, rng.range(-4, 4))),
                 }
                 c.push("live".into());
@@ -498,6 +507,30 @@ pub fn gen_ownership_small(rng: &mut Rng) -> Vec<Case> {
             c.push("drop 3".into());
             c.push("live".into());
             cases.push(c);
+        }
+        // `clone_from` between instances at different fill levels, in both directions
+        {
+            let first = match kind {
+                "convolve" => "convolve c=1,1,1 T=tracked".to_string(),
+                k => format!("{} N=3 T=tracked", k),
+            };
+            cases.push(vec![
+                format!("new 1 {}", first),
+                "f 1 1".into(),
+                "f 1 2".into(),
+                "fresh 1 2".into(),
+                "f 2 5".into(),
+                "clone 1 3".into(),
+                "clonefrom 3 2".into(),
+                "clonefrom 2 1".into(),
+                "f 2 4".into(),
+                "f 3 4".into(),
+                "live".into(),
+                "drop 1".into(),
+                "drop 2".into(),
+                "drop 3".into(),
+                "live".into(),
+            ]);
         }
         // the clock of a deque runs out over owned samples
         if kind == "max" || kind == "min" {
